@@ -94,6 +94,51 @@ let printed_text sch nt (f : dnode list) : string =
   go 0 f;
   if Buffer.length b = 0 then "nothing" else Buffer.contents b
 
+(* why is g not in normal form: the failing checks of every level *)
+let normal_reasons (sch : (n * sinfo) list) (g : dnode list) : string =
+  let rs = ref [] in
+  let add r = if not (List.mem r !rs) then rs := r :: !rs in
+  let rec level (p : n option) (g : dnode list) =
+    if List.exists d_new g then add "new";
+    if not (cases_okb sch g) then add "cases";
+    List.iter (fun s ->
+      if not (norm_snode sch g s) then begin
+        let dn = List.filter (is_dflt_of s) g and xn = List.filter (is_expl_of s) g in
+        let k = (sget sch s).si_kind in
+        if dn <> [] && xn <> [] then add "superseded"
+        else if dn <> [] && not (active sch g s) then add "leftover"
+        else if dn = [] && xn = [] && active sch g s then add "missing"
+        else if k = KLeafList && dn <> [] then add "llpartial"
+        else add "other"
+      end) (schildren sch p);
+    List.iter (fun (DN (s, _, d, _, ch)) ->
+      (match (sget sch s).si_kind with
+       | KCont false -> if d <> List.for_all (fun (DN (_, _, d', _, _)) -> d') ch then add "npflag"
+       | _ -> ());
+      if is_inner sch s then level (Some s) ch) g in
+  level None g;
+  String.concat "," (List.sort compare !rs)
+
+(* a silent deletion (NP container, not in the diff) that is / is not followed by a create of the same container *)
+let silent_info (d : change list) : string =
+  let rec go acc = function
+    | [] -> acc
+    | c :: r ->
+        if c.c_silent then begin
+          let DN (s, _, _, _, _) = c.c_node in
+          let again = List.exists (fun c' -> c'.c_create && c'.c_path = c.c_path &&
+                                             (let DN (s', _, _, _, _) = c'.c_node in s' = s)) r in
+          go ((if again then "recreate" else "gone") :: acc) r
+        end else go acc r in
+  String.concat "," (List.sort_uniq compare (go [] d))
+
+let q_line sch (f : dnode list) (g : dnode list) (d : change list) : string =
+  let nb = f = [] || normalb sch g in                 (* LYD_VALIDATE_PRESENT: an empty tree is not validated *)
+  let ab = not (changes_idb sch d) || forest_eqb (np_norm sch (apply_changes sch d f)) g in
+  let asb = ab || forest_eqb (np_norm sch (apply_changes_all sch d f)) g in
+  Printf.sprintf "Q N=%s%s A=%s AS=%s F=%s C=%s S=%s" (b2s nb) (if nb then "" else ":" ^ normal_reasons sch g) (b2s ab) (b2s asb)
+    (b2s (np_flagsb sch f)) (b2s (canonb sch None f)) (silent_info d)
+
 let mode_of (opts : int) : wdmode =
   if opts land 0x10 <> 0 then WdTrim
   else if opts land 0x20 <> 0 then WdAll
@@ -123,6 +168,7 @@ let run (f : string list) : string =
                  (match validate_all !sch !cur with
                   | Ok (g, d) ->
                       emit (Printf.sprintf "V0 %s # %s" (print_dump_new !sch !nt g) (if ds = [] then "-" else changes_text !sch !nt d));
+                      emit (q_line !sch !cur g d);
                       cur := g
                   | Err e -> emit (if int_of_n e = 1 then "VE" else "VFUEL"); dead := true)
              | "implicit" :: "t0" :: _ :: o :: ds ->
